@@ -91,7 +91,12 @@ def _compare(doc, benign_doc, expected_cards, what):
             i += 1
         raise Violation("structure-changed", f"{what}: report structure differs from the benign report at event {i}: got {got.skeleton[i:i+3]} expected {ref.skeleton[i:i+3]}")
     cards = htmlo.cards(doc)
-    if len(htmlo.cards(benign_doc)) != len(expected_cards):
+    nb = _BENIGN_CARDS.get(benign_doc)
+    if nb is None:
+        if len(_BENIGN_CARDS) > 64:
+            _BENIGN_CARDS.clear()
+        nb = _BENIGN_CARDS[benign_doc] = len(htmlo.cards(benign_doc))
+    if nb != len(expected_cards):
         raise HarnessError("report template not recognised: the benign report does not yield the expected cards")
     if len(cards) != len(expected_cards):
         raise Violation("card-count", f"{what}: {len(cards)} cards, expected {len(expected_cards)}")
@@ -99,6 +104,10 @@ def _compare(doc, benign_doc, expected_cards, what):
         for key in ("selector", "file", "codes", "styles"):
             if c[key] != e[key]:
                 raise Violation(f"not-verbatim:{key}", f"{what}: card {i} shows {key} = {c[key]!r}, the user text was {e[key]!r}")
+
+
+_BENIGN = {}
+_BENIGN_CARDS = {}
 
 
 def direct_judge(case):
@@ -112,7 +121,9 @@ def direct_judge(case):
         pairs.append(p)
         benign.append(dict(base))
     doc = _render(gen, pairs)
-    ref = _render(gen, benign)
+    ref = _BENIGN.get((gen, len(benign)))
+    if ref is None:
+        ref = _BENIGN[(gen, len(benign))] = _render(gen, benign)
     _compare(doc, ref, [_expect_card(gen, p) for p in pairs], f"{gen} generator with {case['cards']!r}")
     allp = [v for spec in case["cards"] for v in spec.values()]
     slots = sorted({k for spec in case["cards"] for k in spec})
